@@ -12,7 +12,11 @@ import (
 func init() {
 	props["C19"] = func(r *Report) {
 		c19(r)
-		r.Guard("C19.R5", "every lock taken is released on every exit: the stream / handler locks", func() { lockPairRule(r, "marbl"); goCaptureRule(r, "marbl") })
+		r.Guard("C19.R5", "every lock taken is released on every exit: the stream / handler locks", func() {
+			lockPairRule(r, "marbl")
+			goCaptureRule(r, "marbl")
+			guardedFieldsRule(r, "marbl", "Handler", "mu", []string{"subs"}, "a frame is fanned out over the subscriber table while a subscriber is being added or removed (concurrent map access ends the process)")
+		})
 	}
 	floors["C19"] = map[string]int{"C19.R1": 6, "C19.R2": 5, "C19.R3": 4, "C19.R4": 5, "C19.R5": 1}
 }
@@ -441,6 +445,46 @@ func c19(r *Report) {
 	r.Guard("C19.R4", "writer and reader agree on the frame layout", func() {
 		// the headers that are framed are the message's own
 		headerMapKeysRule(r)
+		// the ten-octet frame head: the reader takes the frame type from octet 0, the message
+		// type from octet 1 and the ID from octet 2 on, which is where the builder puts them
+		{
+			idxOf := func(v ssa.Value) int64 {
+				for x := range w.backSlice(v, flowOpt{}) {
+					switch y := x.(type) {
+					case *ssa.IndexAddr:
+						if k, isK := constInt(y.Index); isK {
+							return k
+						}
+					case *ssa.Slice:
+						if y.Low != nil {
+							if k, isK := constInt(y.Low); isK {
+								return k
+							}
+						}
+					}
+				}
+				return -1
+			}
+			okR, n := true, 0
+			for _, typ := range []string{"Header", "Data"} {
+				for _, a := range allocsOf(rf, P("marbl")+"."+typ) {
+					fs := litFieldStores(a)
+					for _, st := range fs["MessageType"] {
+						n++
+						if idxOf(st.Val) != 1 {
+							okR = false
+						}
+					}
+					for _, st := range fs["ID"] {
+						n++
+						if idxOf(st.Val) != 2 {
+							okR = false
+						}
+					}
+				}
+			}
+			r.Decide("table", "(*M/marbl.Reader).ReadFrame: message type from octet 1, ID from octet 2 of the frame head", okR && n >= 4, fmt.Sprintf("%d field sources checked", n), "the reader takes the message type or the ID from another octet of the frame head than the writer puts it in: every frame is filed under the wrong message", rf.Pos())
+		}
 		// every frame of a message carries the message's own type: whatever LogRequest
 		// sends is typed Request, whatever LogResponse sends (pseudo-headers, :api, headers,
 		// the body wrapper) is typed Response
@@ -472,6 +516,74 @@ func c19(r *Report) {
 					}
 				}
 			}
+			// the pseudo-headers that describe the message line, each from its own source
+			type ph struct{ name, src string }
+			want := []ph{{":method", "Method"}, {":scheme", "Scheme"}, {":authority", "Host"}, {":path", "EscapedPath"}, {":query", "RawQuery"}, {":proto", "Proto"}, {":remote", "RemoteAddr"}, {":timestamp", "FormatInt"}}
+			if side.want == 2 {
+				want = []ph{{":proto", "Proto"}, {":status", "StatusCode"}, {":reason", "Status"}, {":timestamp", "FormatInt"}}
+			}
+			got := map[string]ssa.Value{}
+			var apiCall *ssa.Call
+			record := func(site *ssa.Call, name, value ssa.Value) {
+				if k, isK := constString(name); isK {
+					got[k] = value
+					if k == ":api" {
+						apiCall = site
+					}
+				}
+			}
+			for _, c := range plainCalls(f, "(*M/marbl.Stream).sendHeader") {
+				record(c, c.Call.Args[3], c.Call.Args[4])
+			}
+			// ... also through a local closure that forwards its parameters to sendHeader
+			for _, in := range instrs(f) {
+				c, isC := in.(*ssa.Call)
+				if !isC {
+					continue
+				}
+				g := c.Call.StaticCallee()
+				if g == nil || g.Parent() != f {
+					continue
+				}
+				for _, sc := range plainCalls(g, "(*M/marbl.Stream).sendHeader") {
+					argOf := func(v ssa.Value) ssa.Value {
+						for k, p := range g.Params {
+							if v == ssa.Value(p) && k < len(c.Call.Args) {
+								return c.Call.Args[k]
+							}
+						}
+						return v
+					}
+					record(c, argOf(sc.Call.Args[3]), argOf(sc.Call.Args[4]))
+				}
+			}
+			for _, p := range want {
+				v, have := got[p.name]
+				okSrc := false
+				if have {
+					okSrc = anyIn(w.backSlice(v, flowOpt{Through: map[string]bool{"strconv.Itoa": true, "strconv.FormatInt": true}, CallArg: true}), func(x ssa.Value) bool {
+						switch y := x.(type) {
+						case *ssa.FieldAddr:
+							return fieldObj(y).Name() == p.src
+						case *ssa.Call:
+							if sc := y.Call.StaticCallee(); sc != nil {
+								return sc.Name() == p.src
+							}
+						}
+						return false
+					})
+				}
+				r.Decide("table", fmt.Sprintf("(*M/marbl.Stream).%s logs %s from %s", strings.TrimPrefix(side.fn, "Stream."), p.name, p.src), have && okSrc, "sendHeader with this name and that source", "the pseudo-header "+p.name+" is not logged (or carries another part of the message): the stream does not parse back to the message's line", f.Pos())
+			}
+			okAPI := false
+			if apiCall != nil {
+				for _, ce := range ctrlEdges(apiCall.Block()) {
+					if isCallValue(ce.If.Cond, "(*M.Context).IsAPIRequest") && ce.Taken {
+						okAPI = true
+					}
+				}
+			}
+			r.Decide("path", fmt.Sprintf("(*M/marbl.Stream).%s marks API traffic, and only API traffic, with :api", strings.TrimPrefix(side.fn, "Stream.")), okAPI, "sendHeader(\":api\") on the IsAPIRequest() edge", "the :api mark is missing, unconditional or inverted", f.Pos())
 			r.Decide("table", fmt.Sprintf("(*M/marbl.Stream).%s: every frame it emits has the message's type", strings.TrimPrefix(side.fn, "Stream.")), bad == "" && n > 0, fmt.Sprintf("%d frame sources, all typed %d", n, side.want), "a frame of this message is emitted with the other message type ("+bad+"): the reader files it under the wrong message of the exchange", f.Pos())
 		}
 
